@@ -76,14 +76,23 @@ def parse_enums(repo=None):
                         cur += ch
                 if cur.strip():
                     variants.append(cur)
-                names = []
+                names, discr, nxt = [], [], 0
                 for v in variants:
                     v = re.sub(r"#\[[^\]]*\]", "", v).strip()
                     vm = re.match(r"(\w+)", v)
                     if vm:
                         names.append(vm.group(1))
+                        dm = re.search(r"=\s*(-?\d+)\s*$", v)
+                        if dm:
+                            nxt = int(dm.group(1))
+                        discr.append(nxt)
+                        nxt += 1
                 enums[m.group(1)] = names
+                DISCR[m.group(1)] = discr
     return enums
+
+
+DISCR = {}
 
 
 def load(repo=None, mir_path=None):
